@@ -108,6 +108,8 @@ func checkC09(w *World, r *Report) {
 	r.floor("C09.version", "stores to Atom.Val of shared atoms", nv, 1)
 
 	checkRMW(w, r, e)
+	r.rule("C09.lisp", "library code built on atoms in the embedded headers (gensym, memoize, load-file-once, protocols) updates them only through swap!, never by reset! of a value computed from a separate read, and does not re-read an atom after discarding swap!'s result")
+	atomLint(w, r, "C09.lisp")
 	r.Assumptions = append(r.Assumptions, "linearizability and real-time order are not decided; only the lock discipline every linearizable implementation of this design needs")
 }
 
@@ -213,6 +215,15 @@ func checkRMW(w *World, r *Report, e *Engine) {
 		okBranch = blocks[cas.Block().Succs[1]] && !blocks[cas.Block().Succs[0]]
 	}
 	r.check(okBranch, "C09.rmw", swap, "branch on the install result", cas.Pos(), "success leaves the loop, failure retries", "the result of the install step does not decide between returning and retrying")
+	// what swap! returns on success is the value it installed
+	if okBranch {
+		okRet := false
+		t := cas.Block().Succs[0]
+		if ret, ok := t.Instrs[len(t.Instrs)-1].(*ssa.Return); ok && len(ret.Results) == 2 {
+			okRet = resolveRet(ret.Results[0]) == ssa.Value(extractOf(apply, 0)) && isNilConst(resolveRet(ret.Results[1]))
+		}
+		r.check(okRet, "C09.rmw", swap, "value returned by swap!", cas.Pos(), "the installed result of the update function", "swap! does not return the value it installed (a re-read can observe a later update)")
+	}
 	// context poll inside the loop
 	polled := false
 	for b := range blocks {
@@ -529,6 +540,27 @@ func checkC10(w *World, r *Report) {
 		r.check(ok, "C10.done-before-deliver", body, "send "+describeVal(e, s.Chan, 0), s.Pos(), "Done = true stored on every path before the outcome is sent", "the outcome is delivered before (or without) Done being set: future-done? can be false after a deref returned")
 	}
 
+	// deliver: every way out of the body after the function was applied has sent the outcome
+	r.rule("C10.deliver", "every return of the body goroutine after the function was applied is preceded, on every path, by a send of the outcome (a future that completed always delivers, also after a cancel)")
+	nd := 0
+	for _, b := range body.Blocks {
+		if len(b.Instrs) == 0 || b == body.Recover {
+			continue
+		}
+		ret, ok := b.Instrs[len(b.Instrs)-1].(*ssa.Return)
+		if !ok || !applies[0].Block().Dominates(b) {
+			continue
+		}
+		nd++
+		sent := false
+		for _, s := range sends {
+			if s.Block() == b || s.Block().Dominates(b) {
+				sent = true
+			}
+		}
+		r.check(sent, "C10.deliver", body, "exit of the body goroutine", ret.Pos(), "outcome sent on every path to this exit", "the body can finish without delivering its outcome: every deref then blocks until its own context ends")
+	}
+	r.floor("C10.deliver", "exits of the body goroutine", nd, 2)
 	// redeposit
 	nrecv := 0
 	for _, b := range deref.Blocks {
@@ -752,6 +784,8 @@ func checkC11(w *World, r *Report) {
 	} else {
 		r.undecided("C11.local", nil, "evaluator model", token.NoPos, m.why)
 	}
+	r.rule("C11.lisp", "the library's per-evaluation unique values (gensym) come from the value swap! installed, not from a second read of the shared counter (shared with C09.lisp)")
+	atomLint(w, r, "C11.lisp")
 	r.Notes = append(r.Notes, "shared values are immutable (C02), so sharing globals between evaluations needs no lock beyond the scope lock")
 	r.Assumptions = append(r.Assumptions, "'returns exactly what it returns when run alone' is behaviour and not decided; races inside host-supplied builtins and process state (os.Setenv) are outside")
 }
